@@ -67,8 +67,10 @@ def ownedOf (sn : Snap) : List Nat :=
     allocator: no block is pointed to twice, and what the allocator hands out is pairwise distinct
     and in use nowhere in the file.  (That a block handed out is all zeros is observed by the
     comparison of the index blocks afterwards.) -/
-def hypothesesHold (sn : Snap) (allocs : List Nat) : Option String :=
-  let owned := ownedOf sn
+def hypothesesHold (sn : Snap) (freedFirst : List Nat) (allocs : List Nat) : Option String :=
+  -- (WRITE and SETATTR first finish a pending shrink, in transactions of their own: what that
+  -- frees is back in the allocator before the operation itself allocates)
+  let owned := (ownedOf sn).filter fun b => !freedFirst.contains b
   let al := allocs.filter (· ≠ 0)
   if !owned.Nodup then some s!"a block is pointed to twice in the file: {owned}"
   else if !al.Nodup then some s!"the allocator handed out a block twice: {allocs}"
@@ -133,7 +135,12 @@ def step (d : St) (line : String) : St × Option String :=
   match r.2, words line with
   | none, "bm" :: "op" :: rest =>
     match d.before, rest.getLast?.bind parseNats with
-    | some b, some al => (r.1, (hypothesesHold b al).map fun m => s!"hypothesis of bmap_ok not met: {m}")
+    | some b, some al =>
+      let freedFirst :=
+        match rest.head? with
+        | some "read" => []
+        | _ => (finishShrink { st := storeOf b, allocs := [] } { blks := b.blks, size := b.size, shrink := b.shrink }).1.freed
+      (r.1, (hypothesesHold b freedFirst al).map fun m => s!"hypothesis of bmap_ok not met: {m}")
     | _, _ => r
   | _, _ => r
 
